@@ -633,6 +633,27 @@ func (s *Subscriber) distributeEvents() {
 		case ch := <-s.addEventChan:
 			outEventsChans = append(outEventsChans, ch)
 		case ch := <-s.rmEventChan:
+			// A notification produced before the cancel call may still be
+			// waiting in inEvents: select picks among ready cases at random.
+			// Forward it first, so that the listener being removed receives
+			// every notification produced while it was registered.
+			for pending := true; pending; {
+				select {
+				case event, ok := <-s.inEvents:
+					if !ok {
+						// Shutting down: dismiss all event readers.
+						for _, och := range outEventsChans {
+							close(och)
+						}
+						return
+					}
+					for _, och := range outEventsChans {
+						och <- event
+					}
+				default:
+					pending = false
+				}
+			}
 			for i, ca := range outEventsChans {
 				if ca == ch {
 					outEventsChans[i] = outEventsChans[len(outEventsChans)-1]
